@@ -2,6 +2,7 @@ package rules
 
 import (
 	"go/token"
+	"go/types"
 	"sort"
 	"strings"
 
@@ -187,7 +188,28 @@ func runC27(c *core.Ctx) {
 	if len(e.puts) > 0 {
 		sumV = e.puts[0].Instr.(*ssa.Call).Common().Args[2]
 	}
-	eng.Dominates(c, "C27.canonical", fn, eng.NamedGuard{Name: "current.Hash() == header.ParentHash", G: ir.BoolIs(func(cl *ssa.Call) bool {
+	// the two canonical-index mutations stand in SyncBlockHeader or in a same-package helper it calls after
+	// storing the header (the helper's parameters are bound to the call's arguments): host = where the
+	// guards are looked for, via = the sites in SyncBlockHeader through which the mutation happens
+	canonHost := func(obj *types.Func) (*ssa.Function, []ssa.CallInstruction, []ssa.CallInstruction) {
+		if direct := ir.CallsTo(fn, obj); len(direct) > 0 {
+			return fn, direct, direct
+		}
+		via := ir.CallsThrough(fn, func(ci ssa.CallInstruction) bool { return ir.CalleeIs(ci, obj) }, 1)
+		for _, site := range via {
+			h := site.Common().StaticCallee()
+			if h == nil || h.Pkg != fn.Pkg || len(ir.CallsTo(h, obj)) == 0 {
+				continue
+			}
+			ir.BindParams(h, site.Common().Args) // stays bound for the rest of the check
+			c.Attribute(h, fn)
+			return h, ir.CallsTo(h, obj), via
+		}
+		return fn, nil, nil
+	}
+	ahHost, ahCalls, ahVia := canonHost(ah)
+	rcHost, rcCalls, rcVia := canonHost(rc)
+	eng.Dominates(c, "C27.canonical", ahHost, eng.NamedGuard{Name: "current.Hash() == header.ParentHash", G: ir.BoolIs(func(cl *ssa.Call) bool {
 		if !bytesEqual(cl) {
 			return false
 		}
@@ -203,8 +225,8 @@ func runC27(c *core.Ctx) {
 			}
 		}
 		return false
-	}, true)}, ir.CallSinks(ir.CallsTo(fn, ah), "appendHeader2Main"), "appendHeader2Main", nil)
-	eng.Dominates(c, "C27.canonical", fn, cmpGuard("headerDifficultySum.Cmp(currentDifficultySum) > 0", func(b *ssa.BinOp) (bool, bool) {
+	}, true)}, ir.CallSinks(ahCalls, "appendHeader2Main"), "appendHeader2Main", nil)
+	eng.Dominates(c, "C27.canonical", rcHost, cmpGuard("headerDifficultySum.Cmp(currentDifficultySum) > 0", func(b *ssa.BinOp) (bool, bool) {
 		cmp := calleeNamed(b.X, "Cmp")
 		if cmp == nil {
 			return false, false
@@ -225,19 +247,29 @@ func runC27(c *core.Ctx) {
 			return true, false
 		}
 		return false, false
-	}), ir.CallSinks(ir.CallsTo(fn, rc), "RestructChain"), "RestructChain", nil)
+	}), ir.CallSinks(rcCalls, "RestructChain"), "RestructChain", nil)
 	// both happen only after the header was stored
 	for _, o := range []struct {
 		desc string
 		cs   []ssa.CallInstruction
-	}{{"appendHeader2Main", ir.CallsTo(fn, ah)}, {"RestructChain", ir.CallsTo(fn, rc)}} {
+	}{{"appendHeader2Main", ahVia}, {"RestructChain", rcVia}} {
 		eng.MustPassCall(c, "C27.canonical", fn, "putBlockHeader", func(ci ssa.CallInstruction) bool { return len(e.puts) > 0 && ci == e.puts[0].Instr }, ir.CallSinks(o.cs, o.desc), o.desc, nil)
 	}
 	// the head that fork choice compares against is re-read after every canonical mutation:
 	// between two canonical-index mutations (also across loop iterations) GetCurrentHeader is called again
 	var muts []ssa.CallInstruction
-	muts = append(muts, ir.CallsTo(fn, ah)...)
-	muts = append(muts, ir.CallsTo(fn, rc)...)
+	muts = append(muts, ahVia...)
+	for _, v := range rcVia {
+		dup := false
+		for _, m := range muts {
+			if m == v {
+				dup = true
+			}
+		}
+		if !dup {
+			muts = append(muts, v)
+		}
+	}
 	for _, m := range muts {
 		blk := m.Block()
 		var next ssa.Instruction
@@ -461,18 +493,24 @@ func runC28(c *core.Ctx) {
 		if !ok || !ir.IsErrorType(x.Type()) {
 			return false, false
 		}
+		// the error tested is, on every path, the result of one of the two verifiers (a phi of both in
+		// SyncBlockHeader itself, or one of them per return of a helper that forwards it)
 		leaves := eng.PhiLeaves(nil, x)
-		if len(leaves) != 2 {
+		if len(leaves) == 0 {
 			return false, false
 		}
-		n := 0
 		for _, l := range leaves {
-			if isCallTo(l, vg) || isCallTo(l, v1559) {
-				n++
+			if !isCallTo(l, vg) && !isCallTo(l, v1559) {
+				return false, false
 			}
 		}
-		return n == 2, !neq
+		return true, !neq
 	}}, e.puts, "putBlockHeader", nil)
+	for _, v := range []*types.Func{vg, v1559} {
+		vv := v
+		n := len(ir.CallsThrough(fn, func(ci ssa.CallInstruction) bool { return ir.CalleeIs(ci, vv) }, 2))
+		c.Decide(n >= 1, "C28.reject", fn, vv.Name()+" is applied to the header (directly or through a helper)", c.P.Rel(fn.Pos()), sprintf("%d call site(s)", n))
+	}
 	// difficulty
 	var expected ssa.Value
 	eng.Dominates(c, "C28.reject", fn, cmpGuard("expectedDifficulty.Cmp(header.Difficulty) == 0", func(b *ssa.BinOp) (bool, bool) {
@@ -588,6 +626,29 @@ func runC28(c *core.Ctx) {
 	predBlocks := append([]*ssa.BasicBlock{}, fn.Blocks...)
 	if eraHost != nil {
 		predBlocks = append(predBlocks, eraHost.Blocks...)
+	}
+	// … and in the other same-package helpers SyncBlockHeader hands the header to (their parameters bound
+	// to the call's arguments, so "the header under verification" is still recognised)
+	for _, ci := range ir.Calls(fn, func(ci ssa.CallInstruction) bool {
+		h := ci.Common().StaticCallee()
+		return h != nil && h != fn && h != eraHost && h.Pkg == fn.Pkg && h.Parent() == nil && len(h.Blocks) > 0 && len(h.Blocks) <= 40 && h.Name() != "isArrowGlacier" && h.Name() != "isLondon" && !token.IsExported(h.Name()) && h.Signature.Recv() == nil
+	}) {
+		h := ci.Common().StaticCallee()
+		uses := false
+		for _, hb := range h.Blocks {
+			for _, in := range hb.Instrs {
+				if cl, ok := in.(*ssa.Call); ok && cl.Common().StaticCallee() != nil {
+					if nm := cl.Common().StaticCallee().Name(); (nm == "isArrowGlacier" || nm == "isLondon") && cl.Common().StaticCallee().Pkg == fn.Pkg {
+						uses = true
+					}
+				}
+			}
+		}
+		if uses {
+			defer ir.BindParams(h, ci.Common().Args)()
+			c.Attribute(h, fn)
+			predBlocks = append(predBlocks, h.Blocks...)
+		}
 	}
 	for _, b := range predBlocks {
 		for _, in := range b.Instrs {
